@@ -281,13 +281,138 @@ fn backend<B: Backend>(opts: &Opts, rep: &mut Report) {
     }
 }
 
+// ---- the formatting surface of a not-yet-verified token ----------------------------------------------
+// Apart from `unverified_footer()`, a caller can only use the trait impls a `SealedToken` carries.
+// Display / Serialize reproduce the token text. Whether any *other* formatting trait is implemented
+// is detected with autoref specialisation on the concrete backend types (so this compiles either way);
+// whatever such an impl prints must not contain the decoded footer or the payload bytes.
+struct Fmt<'a, T>(&'a T);
+trait HasDebug {
+    fn render(&self) -> Vec<(&'static str, String)>;
+}
+impl<T: std::fmt::Debug> HasDebug for Fmt<'_, T> {
+    fn render(&self) -> Vec<(&'static str, String)> {
+        vec![("Debug", format!("{:?}", self.0)), ("Debug-alternate", format!("{:#?}", self.0))]
+    }
+}
+trait NoDebug {
+    fn render(&self) -> Vec<(&'static str, String)>;
+}
+impl<T> NoDebug for &Fmt<'_, T> {
+    fn render(&self) -> Vec<(&'static str, String)> {
+        vec![]
+    }
+}
+struct FmtHex<'a, T>(&'a T);
+trait HasHex {
+    fn render_hex(&self) -> Vec<(&'static str, String)>;
+}
+impl<T: std::fmt::LowerHex> HasHex for FmtHex<'_, T> {
+    fn render_hex(&self) -> Vec<(&'static str, String)> {
+        vec![("LowerHex", format!("{:x}", self.0))]
+    }
+}
+trait NoHex {
+    fn render_hex(&self) -> Vec<(&'static str, String)>;
+}
+impl<T> NoHex for &FmtHex<'_, T> {
+    fn render_hex(&self) -> Vec<(&'static str, String)> {
+        vec![]
+    }
+}
+
+/// an application footer type that is `Debug`, like most application types
+#[derive(Debug, Clone, PartialEq)]
+pub struct KidFooter(pub String);
+impl paseto_core::encodings::Footer for KidFooter {
+    fn encode(&self, mut w: impl WriteBytes) -> Result<(), Box<dyn Error + Send + Sync>> {
+        w.write(self.0.as_bytes());
+        Ok(())
+    }
+    fn decode(footer: &[u8]) -> Result<Self, Box<dyn Error + Send + Sync>> {
+        Ok(KidFooter(String::from_utf8(footer.to_vec())?))
+    }
+}
+impl std::fmt::Debug for Probe {
+    fn fmt(&self, f: &mut std::fmt::Formatter<'_>) -> std::fmt::Result {
+        write!(f, "Probe({})", hx(&self.0))
+    }
+}
+
+fn leaks(rendering: &str, secret: &[u8]) -> bool {
+    let squeeze = |s: &str| s.chars().filter(|c| !c.is_whitespace()).collect::<String>();
+    let r = squeeze(rendering).to_lowercase();
+    r.contains(&squeeze(&String::from_utf8_lossy(secret)).to_lowercase()) || r.contains(&squeeze(&format!("{secret:?}"))) || r.contains(&hx(secret))
+}
+
+macro_rules! formatting_surface {
+    ($rep:expr, $opts:expr, $($b:ty),*) => { $( {
+        type B = $b;
+        if $opts.wants_backend(<B as Backend>::NAME) {
+            const KID: &str = "kid:zVhMiPBP9fRf2snEcT7gFTioeA9COcNy9DfgL1W60haN";
+            let mut rng = Rng::derive($opts.seed, "c12.fmt", <B as Backend>::VER as u64);
+            for p in [Purp::Local, Purp::Public] {
+                let kp = KeyPair::<B>::gen_for(p, &mut rng);
+                let msg = b"payload-marker-7f3a".to_vec();
+                let Ok(tok) = kp.seal(&msg, KID.as_bytes(), b"") else { continue };
+                // authentic and corrupted (the footer is intact in both)
+                let (h, mut body, f) = split_token(&tok);
+                let n = body.len();
+                body[n / 2] ^= 1;
+                for (state, text) in [("authentic-but-unverified", tok.clone()), ("forged", join_token(&h, &body, &f))] {
+                    let mut renderings: Vec<(&'static str, &'static str, String)> = vec![];
+                    match p {
+                        Purp::Local => {
+                            if let Ok(t) = text.parse::<EncryptedToken<B, Probe, KidFooter>>() {
+                                renderings.extend((&Fmt(&t)).render().into_iter().map(|(k, v)| (k, "KidFooter", v)));
+                                renderings.extend((&FmtHex(&t)).render_hex().into_iter().map(|(k, v)| (k, "KidFooter", v)));
+                            }
+                            if let Ok(t) = text.parse::<EncryptedToken<B, Probe, Vec<u8>>>() {
+                                renderings.extend((&Fmt(&t)).render().into_iter().map(|(k, v)| (k, "Vec<u8>", v)));
+                                renderings.extend((&FmtHex(&t)).render_hex().into_iter().map(|(k, v)| (k, "Vec<u8>", v)));
+                            }
+                        }
+                        Purp::Public => {
+                            if let Ok(t) = text.parse::<SignedToken<B, Probe, KidFooter>>() {
+                                renderings.extend((&Fmt(&t)).render().into_iter().map(|(k, v)| (k, "KidFooter", v)));
+                                renderings.extend((&FmtHex(&t)).render_hex().into_iter().map(|(k, v)| (k, "KidFooter", v)));
+                            }
+                            if let Ok(t) = text.parse::<SignedToken<B, Probe, Vec<u8>>>() {
+                                renderings.extend((&Fmt(&t)).render().into_iter().map(|(k, v)| (k, "Vec<u8>", v)));
+                                renderings.extend((&FmtHex(&t)).render_hex().into_iter().map(|(k, v)| (k, "Vec<u8>", v)));
+                            }
+                        }
+                    }
+                    take_events();
+                    $rep.count_n(&format!("{}.{}.formatting-impls-found", <B as Backend>::NAME, p.name()), renderings.len() as u64);
+                    for (trait_name, footer_ty, r) in renderings {
+                        if leaks(&r, KID.as_bytes()) {
+                            $rep.violation(&format!("C12|{}|{}|unverified-footer-reachable-through:{trait_name}", <B as Backend>::NAME, p.name()), json!({"token_state": state, "footer_type": footer_ty, "rendering": r.chars().take(300).collect::<String>()}));
+                        }
+                        if p == Purp::Local && leaks(&r, &msg) {
+                            $rep.violation(&format!("C12|{}|{}|payload-reachable-through:{trait_name}", <B as Backend>::NAME, p.name()), json!({"token_state": state, "rendering": r.chars().take(300).collect::<String>()}));
+                        }
+                    }
+                    $rep.case(&format!("{}.{}.formatting-surface", <B as Backend>::NAME, p.name()), fnv_parts(&[<B as Backend>::NAME.as_bytes(), p.name().as_bytes(), state.as_bytes()]), true);
+                }
+            }
+        }
+    } )* };
+}
+
 pub fn run(opts: &Opts) {
     let mut rep = Report::new("C12");
+    if opts.shard == 0 || opts.only.is_some() {
+        formatting_surface!(rep, opts, V1, V2, V3, V4);
+        #[cfg(feature = "ffi")]
+        formatting_surface!(rep, opts, V3Lc, V4Na);
+    }
     for_backends!(opts, backend, opts, &mut rep);
     rep.set(
         "rule",
         json!("for sealed tokens on all 12 backend x purpose pairs every corruption class of C02 (every single-bit flip of body/footer/assertion, footer/assertion add/remove/replace, boundary shifts, every truncation, extensions), wrong key, a one-bit-different key per key byte tried right after the right key unsealed the same token, wrong assertion, headers relabelled between a plain and a suffixed payload encoding (both directions, recording probe types for both) and too-short bodies is unsealed twice through a recording Payload type (decoder scripted to succeed, then to fail) and a recording validator; the probes must record nothing, the error must not be PayloadError and must be the same in both runs; positive control: the authentic token yields exactly [decode(claims), validate(claims)]; distinct = distinct (token, assertion, key)"),
     );
-    rep.set("not_monitored", json!(["'the unverified footer is reachable only through the accessor named unverified' is a statement about the API surface, not about executions"]));
+    rep.set("formatting_surface", json!("for parsed tokens (authentic but unverified, and forged) with a Debug footer type and with Vec<u8>: every formatting trait the concrete token type turns out to implement (detected by autoref specialisation: Debug, {:#?}, LowerHex) is rendered and must not contain the decoded footer (text, byte list or hex) nor, for local tokens, the payload"));
+    rep.set("not_monitored", json!(["that no *method* other than unverified_footer() returns the footer is a statement about the API surface (names), not about executions; the formatting impls, which are reachable without naming anything, are rendered and inspected"]));
     rep.finish(opts);
 }
